@@ -474,9 +474,11 @@ def o_C04(x, ctx):
     mp = model_pending_types(x.mworld)
     if ip != mp and not out and pending_reliable(ctx):
         out.append(('pending', f'pending events after the call (types in submission order): impl {ip} model {mp}'))
-    if x.ledger != '-':
+    if x.ledger != '-' and not getattr(ctx, 'faults', False):
+        # (with injected exceptions the entry/exit ledger is legitimately unbalanced: an aborted transition has exited
+        # its source and not entered its target)
         out.append(('ledger', f'ledger: {x.ledger}'))
-    if x.esc != '-':
+    if x.esc != '-' and not (getattr(ctx, 'faults', False) and x.op in ('start', 'stop')):
         out.append(('escaped', f'exception escaped: {x.esc}'))
     return out
 
